@@ -1,5 +1,84 @@
-import RPVerif.Model.Sched
+import RPVerif.Lemmas.Sched
+
+/-!
+# C03 — Released resources come back exactly once and completely
+-/
 namespace RPVerif.C03
-open RPVerif.Sched
-theorem placeholder : (1 : Nat) = 1 := rfl
+open RPVerif.Sched List
+
+/-- **giving back restores precisely what was taken**: marking a slot BUSY and
+    then FREE again leaves the node exactly as it was (cores, GPUs, storage,
+    memory), provided the slot named free resources — which every grant does
+    (`C01_grant_fits_node`) -/
+theorem C03_release_inverse (n : NodeSt) (sl : Slot)
+    (hc : ∀ i ∈ sl.cores, n.cores[i]? = some Occ.free)
+    (hg : ∀ g ∈ sl.gpus, n.gpus[g.1]? = some Occ.free) :
+    applySlot (applySlot n sl true) sl false = n :=
+  applySlot_inverse n sl hc hg
+
+/-- while held, the slot's cores read BUSY in the node map and nothing else changed -/
+theorem C03_held_is_busy (n : NodeSt) (sl : Slot) (j : Nat) (o : Occ) (hj : n.cores[j]? = some o) :
+    (applySlot n sl true).cores[j]? = some (if j ∈ sl.cores then Occ.busy else o) := by
+  have : (applySlot n sl true).cores = foldSet n.cores sl.cores .busy := by simp [applySlot, foldSet]
+  rw [this]; exact foldSet_busy _ _ _ _ hj
+
+/-- the bookkeeping counter: a successful allocation adds one, a release batch
+    subtracts one per released task -/
+theorem C03_counter_alloc (c : Cfg) (s s' : SchedSt) (r : Req) (h : tryAllocation c s r = (.ok true, s')) :
+    ∃ s1, s'.activeCnt = s1.activeCnt + 1 ∧ (scheduleTask c s r).2 = s1 := by
+  unfold tryAllocation at h
+  rcases hs : scheduleTask c s r with ⟨res, s1⟩
+  rw [hs] at h
+  refine ⟨s1, ?_, rfl⟩
+  cases res with
+  | error e => simp at h
+  | ok o =>
+    cases o with
+    | none => simp only at h; split at h <;> simp at h
+    | some slots =>
+      cases slots with
+      | nil => simp only at h; split at h <;> simp at h
+      | cons x xs =>
+        simp only at h
+        cases hc : changeSlotStates s1.nodes (x :: xs) true with
+        | none => rw [hc] at h; simp at h
+        | some ns => rw [hc] at h; simp only [Prod.mk.injEq] at h; rw [← h.2]
+
+theorem C03_counter_release (s : SchedSt) (uids : List Nat) (h : uids ≠ []) :
+    (unscheduleCompleted s uids).1.activeCnt = s.activeCnt - uids.length := by
+  unfold unscheduleCompleted
+  rw [if_neg h]
+  simp only
+  generalize hs0 : ({ s with activeCnt := s.activeCnt - uids.length } : SchedSt) = s0
+  have h0 : s0.activeCnt = s.activeCnt - uids.length := by rw [← hs0]
+  rw [← h0]
+  clear hs0 h0
+  induction uids generalizing s0 with
+  | nil => rfl
+  | cons u us ih =>
+    simp only [foldl_cons]
+    have hstep : ∀ (acc : SchedSt), (match acc.given.find? (fun (e : Nat × List Slot) => e.1 = u) with
+        | none => acc
+        | some e => match changeSlotStates acc.nodes e.2 false with
+          | none => acc
+          | some ns => { acc with nodes := ns }).activeCnt = acc.activeCnt := by
+      intro acc
+      split
+      · rfl
+      · split <;> rfl
+    by_cases hus : us = []
+    · subst hus; simp only [foldl_nil]; exact hstep s0
+    · rw [ih hus]; exact hstep s0
+
+/-- FULL statement over all histories is FALSE on the current code for
+    application-placed tasks (finding F3): they are released but were never
+    counted.  Witness on the faithful model: the counter goes negative. -/
+theorem C03_app_slots_witness :
+    (runLoop { cpn := 1, gpn := 0, lfsPn := 0, memPn := 0 }
+        { nodes := [{ index := 0, cores := [.free], gpus := [], lfs := 0, mem := 0 }] } true
+        [{ incoming := [.sched [{ uid := 0, ranks := 1, cpr := 1, gpr := 0, lfs := 0, mem := 0,
+                                   app := some [{ node := 0, cores := [0], gpus := [], lfs := 0, mem := 0 }] }]],
+           unsched := [0] }] []).1.activeCnt = -1 := by
+  decide
+
 end RPVerif.C03
